@@ -1,11 +1,14 @@
 SPEC = {
     "id": "C09",
-    "drivers": [{"pkg": "internal/corerad", "test": "TestVerifC09", "newgo": True, "timeout": 1500}],
+    "drivers": [{"pkg": "internal/corerad", "test": "TestVerifC09", "newgo": True, "timeout": 1500},
+                # the real socket set up by dialNDP on a veth pair (root only): the hop limit of a received message reaches
+                # the listener through the control message; only RS / RA pass the ICMPv6 filter
+                {"pkg": "internal/system", "test": "TestVerifRealOS", "newgo": True, "timeout": 300}],
     "extra_corr_modules": ["Corr.C06"],
     "rule": "scripted Conn.ReadFrom sequences fed to the real Advertiser.Run and Monitor.Run under testing/synctest: all 256 hop "
             "limits; runs of 1..12 consecutive invalid messages of each of the 4 NDP types (beyond the 5-retry budget) followed by "
             "valid messages; 1..6 consecutive timeouts with and without a resetting message; a fatal read error; random mixed "
-            "scripts of <=40 reads. Non-trivial: the script contains at least one invalid message or timeout; distinct by input.",
+            "scripts of <=40 reads; floods of 100 / 1025 / 3000 consecutive invalid messages; the real dialNDP socket on a veth pair (hop limits 255 and 64 as sent, NS / NA filtered). Non-trivial: the script contains at least one invalid message or timeout; distinct by input.",
     "nontrivial": lambda c: any(s.get("Kind") != "msg" or s.get("Hop") != 255 or s.get("Typ") in (135, 136)
                                 for s in (c.get("input", {}).get("script") or [])),
     "trusted": ["the fake Conn delivers scripted datagrams in order; messages are constructed as Go values (the ndp wire decoder is not involved)"],
